@@ -60,6 +60,21 @@ def histories (ops : List StoreOp) : List (List Mapping × List Op) := ops.foldl
 
 /-! ### BaseIRI -/
 
+/-- sanity of the index bookkeeping of `NewBaseIRI`: the resource ends inside the string, the root is at
+    most one past its end (a base without a path has no trailing slash), the directory does not extend
+    beyond the resource. Decidable; checked by the harness on every base it generates. -/
+def IndicesOK (rb : BaseIRI) : Prop :=
+  rb.resourceIndex ≤ rb.original.length ∧
+  match rb.root with
+  | none => True
+  | some (ri, di) => 1 ≤ ri ∧ ri ≤ rb.original.length + 1 ∧ di ≤ rb.resourceIndex
+
+instance (rb : BaseIRI) : Decidable (IndicesOK rb) := by
+  unfold IndicesOK
+  cases rb.root with
+  | none => exact inferInstance
+  | some rd => obtain ⟨ri, di⟩ := rd; exact inferInstance
+
 /-- a path segment that is neither `.` nor `..` and contains no delimiter -/
 def PlainSeg (s : Str) : Prop :=
   s ≠ [cDot] ∧ s ≠ [cDot, cDot] ∧ ∀ c ∈ s, c ≠ cSlash ∧ c ≠ cQuest ∧ c ≠ cHash
@@ -72,5 +87,30 @@ def SchemeLike (s : Str) : Prop := s ≠ [] ∧ ∀ c ∈ s, c ≠ cColon ∧ c 
 
 /-- authority characters -/
 def AuthLike (a : Str) : Prop := ∀ c ∈ a, c ≠ cSlash ∧ c ≠ cQuest ∧ c ≠ cHash
+
+open RdfModel.Spec.RFC3986Lite (queryPart fragmentPart) in
+/-- `scheme://authority/dir₁/…/dirₙ/last?query#fragment` -/
+def mkBase (sch auth : Str) (dirs : List Str) (last : Str) (q f : Option Str) : Str :=
+  sch ++ cColon :: cSlash :: cSlash :: auth ++ joinSegs (dirs ++ [last]) ++ queryPart q ++ fragmentPart f
+
+/-- an IRI in the directory of that base: `scheme://authority/dir₁/…/dirₙ/rest` -/
+def mkTarget (sch auth : Str) (dirs : List Str) (rest : Str) : Str :=
+  sch ++ cColon :: cSlash :: cSlash :: auth ++ joinSegs dirs ++ cSlash :: rest
+
+/-- a hierarchical base without dot segments (last segment possibly empty) -/
+structure BaseShape (sch auth : Str) (dirs : List Str) (last : Str) (q : Option Str) : Prop where
+  hs : SchemeLike sch
+  ha : AuthLike auth
+  hd : ∀ s ∈ dirs, PlainSeg s
+  hl : PlainSeg last
+  hq : ∀ x, q = some x → ∀ c ∈ x, c ≠ cHash
+
+/-- a relative path `seg₁/seg₂…` below a directory: non-empty first segment without colon, no dot segments,
+    no query or fragment -/
+structure RelShape (seg1 : Str) (more : List Str) : Prop where
+  hne : seg1 ≠ []
+  hp : PlainSeg seg1
+  hc : ∀ c ∈ seg1, c ≠ cColon
+  hm : ∀ s ∈ more, PlainSeg s
 
 end RdfModel.C13
